@@ -339,7 +339,7 @@ fn word_ops(w: u16, n: usize) -> Vec<BitOp> {
 }
 
 pub fn c06(run: &mut Run) {
-    run.rule = "Exhaustive: (a) every partial prefix of 0-10 bits (2047 shift-register states, each reached by feeding the prefix to a fresh decoder) x next bit: 'incomplete' until the 11th bit, then the whole-word model's verdict; (b) all 2048 x 2048 ordered frame pairs bit by bit on a fresh decoder: both results must equal whole-word decoding whatever the first frame was; (c) every partial state -> clear() -> every frame. Pumping: frames and partial-frame+clear() patterns repeated for >= 80,000 bits. Random: chunked bit streams (valid frames, bursts of rejected frames, 1-2 flipped bits, random 11 bits, partial frame + clear(), clear() at a boundary, random runs) against the bit-serial model through Ps2Decoder and through Keyboard::add_bit/clear. Non-trivial = pair with exactly one of the two frames rejected; clear() with >= 1 pending bit followed by a frame; random stream containing a rejected frame followed by an accepted one or a clear() with pending bits. Exhaustive cases are distinct by construction, random ones by op-string fingerprint.".into();
+    run.rule = "Exhaustive: (a) every partial prefix of 0-10 bits (2047 shift-register states, each reached by feeding the prefix to a fresh decoder) x next bit: 'incomplete' until the 11th bit, then the whole-word model's verdict; (b) all 2048 x 2048 ordered frame pairs bit by bit on a fresh decoder: both results must equal whole-word decoding whatever the first frame was; (c) every partial state -> clear() -> every frame. State exploration: BFS over {bit 0, bit 1, clear()} with states named by Ps2Decoder's Debug rendering. Repeat-then-perturb: a frame repeated 1-6 times (typematic repeat), then optionally an abandoned partial frame + clear(), then the same frame / each single-bit corruption / another frame. Pumping: frames and partial-frame+clear() patterns repeated for >= 80,000 bits. Random: chunked bit streams (valid frames, bursts of rejected frames, 1-2 flipped bits, random 11 bits, partial frame + clear(), clear() at a boundary, random runs) against the bit-serial model through Ps2Decoder and through Keyboard::add_bit/clear. Non-trivial = pair with exactly one of the two frames rejected; clear() with >= 1 pending bit followed by a frame; random stream containing a rejected frame followed by an accepted one or a clear() with pending bits. Exhaustive cases are distinct by construction, random ones by op-string fingerprint.".into();
     run.assumptions = vec!["Ps2Decoder is deterministic; each case starts from Ps2Decoder::new()".into()];
 
     // (a) partial states x next bit
@@ -480,6 +480,78 @@ pub fn c06(run: &mut Run) {
         ops.extend(word_ops(frame::encode(0xF0), 11));
         run.sample(|| json!({"layer":"partial+clear+frame","ops":ops_compact(&ops)}));
     }
+    // (c2) state exploration: BFS over {bit 0, bit 1, clear()} with states named by the Debug
+    // rendering of Ps2Decoder (register, bit count and anything a change may add)
+    {
+        let alphabet = [BitOp::Bit(false), BitOp::Bit(true), BitOp::Clear];
+        let cap = run.tier.pick(20_000usize, 300_000usize);
+        let out = crate::explore::bfs(3, cap, 8, |h| {
+            let ops: Vec<BitOp> = h.iter().map(|i| alphabet[*i as usize]).collect();
+            let fp = guard(|| {
+                let mut d = Ps2Decoder::new();
+                for o in &ops {
+                    match o {
+                        BitOp::Bit(b) => { let _ = d.add_bit(*b); }
+                        BitOp::Clear => d.clear(),
+                    }
+                }
+                format!("{:?}", d)
+            })?;
+            let mut probe = Run::probe("C06");
+            c06_eval_ops(&mut probe, &ops);
+            Ok((fp, probe.violations.is_empty()))
+        });
+        run.eval(out.histories_run);
+        run.nontrivial_enum(out.histories_run);
+        for f in &out.failures {
+            let ops: Vec<BitOp> = f.iter().map(|i| alphabet[*i as usize]).collect();
+            c06_eval_ops(run, &ops);
+        }
+        run.part("state_exploration", json!({"alphabet": ["bit0", "bit1", "clear"], "states_found": out.states, "state_cap": cap, "closed": out.closed, "max_depth": out.max_depth, "histories_replayed": out.histories_run, "failing(sampled)": out.failures.len()}));
+    }
+
+    // (c3) repeat-then-perturb: a keyboard with a key held down sends the same frame again
+    // and again (typematic repeat). The same frame k times, then optionally an abandoned
+    // partial frame + clear(), then the frame again / each single-bit corruption of it /
+    // another valid frame: every verdict must still be the whole-word verdict.
+    {
+        let reps: Vec<u16> = vec![frame::encode(0x1C), frame::encode(0xF0), frame::encode(0xE0), frame::encode(0x00), frame::encode(0xFF), frame::encode(0x5A), 0x7FF, 0x000, frame::encode(0x1C) ^ 0x200];
+        let mut n = 0u64;
+        for &w in &reps {
+            for k in 1..=6usize {
+                let mut perturbs: Vec<Vec<BitOp>> = vec![vec![]];
+                for nb in 1..=10usize {
+                    for inv in [false, true] {
+                        let mut v = word_ops(if inv { !w & 0x7FF } else { w }, nb);
+                        v.push(BitOp::Clear);
+                        perturbs.push(v);
+                    }
+                }
+                let mut finals: Vec<u16> = vec![w, frame::encode(0x1A)];
+                finals.extend((0..11).map(|i| w ^ (1 << i)));
+                for p in &perturbs {
+                    for &f in &finals {
+                        let mut ops: Vec<BitOp> = Vec::new();
+                        for _ in 0..k {
+                            ops.extend(word_ops(w, 11));
+                        }
+                        ops.extend(p.iter().copied());
+                        ops.extend(word_ops(f, 11));
+                        c06_eval_ops(run, &ops);
+                        n += 1;
+                    }
+                }
+            }
+        }
+        run.nontrivial_enum(n);
+        run.part("repeat_then_perturb", json!({"repeated_frames": reps.len(), "repeat_counts": "1..=6", "cases": n}));
+        let mut ex = Vec::new();
+        for _ in 0..3 { ex.extend(word_ops(frame::encode(0x1C), 11)); }
+        ex.push(BitOp::Bit(false)); ex.push(BitOp::Clear);
+        ex.extend(word_ops(frame::encode(0x1C) ^ 1, 11));
+        run.sample(|| json!({"layer":"repeat-then-perturb","ops":ops_compact(&ex)}));
+    }
+
     // (c') pumping: the same frame / partial frame + clear() repeated far beyond 2^16 bits
     let mut bits = 0u64;
     let pats: Vec<Vec<BitOp>> = vec![
